@@ -4,7 +4,8 @@ from vcheck import Case, hx, flist, parse_vals
 
 PID = "C16"
 RULE = ("non-trivial = a 3-D rotation / axis-relative spherical-coordinate case whose axis is within 1e-6 of +-z "
-        "(polar distance of the normalised axis) or has length outside [0.1,10], or a rotation with |alpha| > 2 pi; "
+        "(polar distance of the normalised axis) or has length outside [0.1,10], or a rotation with |alpha| > 2 pi, "
+        "or whose argument objects (axis, rotated vector, multiplied matrices) reach the call through a non-empty call history; "
         "guard requests (wrong dimension / axis size) count when they exit; distinct by case text")
 LEVEL_TEXT = ("Theorems (Coq, over the reals, for every angle and every non-zero axis of any length): the 2-D and 3-D matrices returned by the "
               "model of Rotation_Matrix are orthogonal (R^T R = R R^T = 1, all entries), have determinant one, the 3-D rotation fixes the axis and its unit vector, "
